@@ -89,6 +89,13 @@ def renderHex (rd : List UInt8) : List UInt8 :=
 def genericTail (sep rd : List UInt8) : List UInt8 :=
   sep ++ decimal rd.length ++ (if rd.isEmpty then [] else sep ++ renderHex rd)
 
+/-- octal digits of `n`, most significant first, no leading zeros (a Chaosnet address) -/
+def octalText (n : Nat) : List UInt8 :=
+  if h : n < 8 then [digitOctet n]
+  else octalText (n / 8) ++ [digitOctet (n % 8)]
+termination_by n
+decreasing_by omega
+
 /-- lower-case hexadecimal digits of `n`, no leading zeros (a group of an IPv6 address) -/
 def hexText (n : Nat) : List UInt8 :=
   if h : n < 16 then [hexDigitOctet n]
@@ -267,6 +274,7 @@ inductive PRdata where
   | txt (s : PString) (ss : List PString)
   | hinfo (cpu os : PString)
   | aaaa (groups : List Nat)                                   -- IN AAAA: eight 16-bit groups, written in full
+  | chA (n : PName) (addr : Nat)                               -- CH A: network name and octal address
   deriving Repr, Inhabited
 
 def u16Wire (n : Nat) : List UInt8 := [UInt8.ofNat (n / 256 % 256), UInt8.ofNat (n % 256)]
@@ -287,6 +295,7 @@ def kindOK (cls ty : Nat) : PRdata → Bool
   | .txt .. => ty == 16
   | .hinfo .. => ty == 13
   | .aaaa .. => cls == 1 && ty == 28
+  | .chA .. => cls == 3 && ty == 1
 
 /-- the second and later strings of TXT, each after its gap -/
 def txtRest (G : Nat → PGap) : Nat → List PString → List UInt8
@@ -310,6 +319,7 @@ def rdataText (G : Nat → PGap) : PRdata → List UInt8
   | .txt s ss => stringText s ++ txtRest G 0 ss
   | .hinfo c o => stringText c ++ (gapText (G 0) ++ stringText o)
   | .aaaa gs => groupsText gs
+  | .chA n a => nameText n ++ (gapText (G 0) ++ octalText a)
 
 /-- number of gaps inside the RDATA -/
 def rdataGaps : PRdata → Nat
@@ -323,6 +333,7 @@ def rdataGaps : PRdata → Nat
   | .txt _ ss => ss.length
   | .hinfo .. => 1
   | .aaaa .. => 0
+  | .chA .. => 1
 
 def txtLines (G : Nat → PGap) : Nat → List PString → Nat
   | _, [] => 0
@@ -342,6 +353,7 @@ def rdataLines (G : Nat → PGap) : PRdata → Nat
   | .txt s ss => stringLines s + txtLines G 0 ss
   | .hinfo c o => stringLines c + gapLines (G 0) + stringLines o
   | .aaaa .. => 0
+  | .chA n _ => nameLines n + gapLines (G 0)
 
 /-- the RDATA denoted (RFC 1035 §3.3, RFC 2782 wire formats); `none` if a name cannot be completed -/
 def rdataWire (origin : Option (List UInt8)) : PRdata → Option (List UInt8)
@@ -361,6 +373,7 @@ def rdataWire (origin : Option (List UInt8)) : PRdata → Option (List UInt8)
   | .txt s ss => some ((s :: ss).flatMap stringWire)
   | .hinfo c o => some (stringWire c ++ stringWire o)
   | .aaaa gs => some (gs.flatMap u16Wire)
+  | .chA n a => (nameWire origin n).map fun w => w ++ u16Wire a
 
 /-! ### records and files — the presentation subset of `C23_records_partial`
 
@@ -372,12 +385,12 @@ def rdataWire (origin : Option (List UInt8)) : PRdata → Option (List UInt8)
   before).  TTL and class written (decimal; mnemonic in any case or `CLASSnnn`; in either order)
   or omitted.  Type: mnemonic in any case or `TYPEnnn`.  RDATA: the RFC 3597 form `\# len hex`
   for any class and type, or the typed syntax of A, NS/MD/MF/CNAME/MB/MG/MR/PTR, MX, SOA, MINFO,
-  SRV, TXT, HINFO, AAAA (names relative / absolute / `@`; character-strings quoted or unquoted with
+  SRV, TXT, HINFO, AAAA, Chaosnet A (names relative / absolute / `@`; character-strings quoted or unquoted with
   escapes).  Directives: `$ORIGIN <absolute name>`, `$TTL <decimal>`,
   `$INCLUDE <path> [<origin>]`.  Blank and comment-only
   lines.  The last line may end with the file instead
-  of a line end.  Not in this subset (see C23.lean): `::`-compressed or IPv4-suffixed AAAA, WKS and Chaosnet A
-  typed syntax. -/
+  of a line end.  Not in this subset (see C23.lean): `::`-compressed or IPv4-suffixed AAAA and the typed
+  syntax of WKS. -/
 
 inductive POwner where
   | same
